@@ -289,3 +289,135 @@ def install():
 def engaged(names: list[str]) -> list[str]:
     """Names of deciding counters that stayed at zero."""
     return [n for n in names if MON.counts.get(n, 0) == 0]
+
+
+# --------------------------------------------------------------------------- message level (C02)
+
+_msg_installed = False
+_TABLE = None
+
+
+def _table():
+    global _TABLE
+    if _TABLE is None:
+        _TABLE = L.command_table()
+    return _TABLE
+
+
+def reset_table():
+    global _TABLE
+    _TABLE = None
+
+
+def install_message():
+    """Contracts on MessageHeader.as_packed/from_bytes and Message.as_bytes/from_bytes."""
+    global _msg_installed
+    if _msg_installed:
+        return MON
+    MH = base_mod.MessageHeader
+    Msg = base_mod.Message
+
+    o_as_packed = MH.as_packed
+
+    def hdr_as_packed(self, packer):
+        if not MON.enabled:
+            return o_as_packed(self, packer)
+        try:
+            before = len(packer.get_buffer())
+        except Exception:
+            before = None
+        res = o_as_packed(self, packer)
+        try:
+            MON.hit("hdr.as_packed")
+            f = (self.version, self.length, self.command_flags, self.command_code,
+                 self.application_id, self.hop_by_hop_identifier, self.end_to_end_identifier)
+            if before is not None and all(isinstance(x, int) for x in f) and \
+                    0 <= f[0] < 256 and 0 <= f[1] < 1 << 24 and 0 <= f[2] < 256 and 0 <= f[3] < 1 << 24:
+                got = packer.get_buffer()[before:]
+                exp = R.enc_header(*f)
+                if got != exp:
+                    MON.witness("C02", "header.encode", {"fields": f, "got": got.hex(), "exp": exp.hex()})
+        except Exception as e:
+            MON.hit("monitor_error:hdr.as_packed:" + type(e).__name__)
+        return res
+
+    MH.as_packed = hdr_as_packed
+
+    o_hfrom = MH.__dict__["from_bytes"].__func__
+
+    def hdr_from_bytes(cls, header_data):
+        res = o_hfrom(cls, header_data)
+        if not MON.enabled:
+            return res
+        try:
+            MON.hit("hdr.from_bytes")
+            rh = R.RHeader(bytes(header_data[:20]))
+            got = (res.version, res.length, res.command_flags, res.command_code, res.application_id,
+                   res.hop_by_hop_identifier, res.end_to_end_identifier)
+            if got != rh.tup() or res.length_header != 20:
+                MON.witness("C02", "header.decode", {"wire": bytes(header_data[:20]).hex(), "got": got})
+        except Exception as e:
+            MON.hit("monitor_error:hdr.from_bytes:" + type(e).__name__)
+        return res
+
+    MH.from_bytes = classmethod(hdr_from_bytes)
+
+    o_as_bytes = Msg.as_bytes
+
+    def msg_as_bytes(self):
+        res = o_as_bytes(self)
+        if not MON.enabled:
+            return res
+        try:
+            MON.hit("msg.as_bytes")
+            rh = R.RHeader(res[:20])
+            if rh.length != len(res):
+                MON.witness("C02", "message.encode.length_field",
+                            {"cls": type(self).__name__, "field": rh.length, "bytes": len(res)})
+            if self.header.length != len(res):
+                MON.witness("C02", "message.encode.header_length_attr",
+                            {"cls": type(self).__name__, "attr": self.header.length, "bytes": len(res)})
+            try:
+                R.dec_avps(res[20:], strict=False)
+            except R.RefError as e:
+                MON.witness("C02", "message.encode.body_not_parsable", {"cls": type(self).__name__, "why": str(e),
+                                                                       "wire": res[:200].hex()})
+        except Exception as e:
+            MON.hit("monitor_error:msg.as_bytes:" + type(e).__name__)
+        return res
+
+    Msg.as_bytes = msg_as_bytes
+
+    o_from = Msg.__dict__["from_bytes"].__func__
+
+    def msg_from_bytes(cls, msg_data, plain_msg=False):
+        res = o_from(cls, msg_data, plain_msg)
+        if not MON.enabled:
+            return res
+        try:
+            MON.hit("msg.from_bytes")
+            data = bytes(msg_data)
+            rh = R.RHeader(data[:20])
+            exp_cls = L.expected_decode_class(rh.code, rh.is_request, plain=bool(plain_msg), table=_table())
+            if type(res) is not exp_cls:
+                MON.witness("C02", "dispatch.wrong_class",
+                            {"code": rh.code, "R": rh.is_request, "plain": bool(plain_msg),
+                             "got": type(res).__name__, "exp": exp_cls.__name__})
+            h = res.header
+            got = (h.version, h.length, h.command_flags, h.command_code, h.application_id,
+                   h.hop_by_hop_identifier, h.end_to_end_identifier)
+            if got != rh.tup():
+                diff = [n for n, a, b in zip(("version", "length", "flags", "code", "app", "hbh", "e2e"),
+                                             got, rh.tup()) if a != b]
+                key = "header.decode." + "+".join(diff)
+                if diff == ["flags"] and (got[2] ^ rh.flags) == 0x40:
+                    key = "header.p_bit_forced_by_typed_class"
+                MON.witness("C02", key, {"cls": type(res).__name__, "wire_flags": rh.flags, "got_flags": got[2],
+                                         "wire": data[:20].hex()})
+        except Exception as e:
+            MON.hit("monitor_error:msg.from_bytes:" + type(e).__name__)
+        return res
+
+    Msg.from_bytes = classmethod(msg_from_bytes)
+    _msg_installed = True
+    return MON
